@@ -232,6 +232,36 @@ fn cvec_scenario(seed: u64, k: u64) -> (J, J) {
 }
 
 // ------------------------------------------------------------------ parallel writer
+struct Slow {
+    items: Vec<u64>,
+    i: usize,
+    seed: u64,
+}
+impl Iterator for Slow {
+    type Item = u64;
+    fn next(&mut self) -> Option<u64> {
+        if self.i >= self.items.len() {
+            return None;
+        }
+        self.seed ^= self.seed << 13;
+        self.seed ^= self.seed >> 7;
+        self.seed ^= self.seed << 17;
+        match self.seed % 4 {
+            0 => std::thread::yield_now(),
+            1 => spin(self.seed % 3000),
+            2 => std::thread::sleep(Duration::from_micros(self.seed % 150)),
+            _ => {}
+        }
+        self.i += 1;
+        Some(self.items[self.i - 1])
+    }
+    fn size_hint(&self) -> (usize, Option<usize>) {
+        let n = self.items.len() - self.i;
+        (n, Some(n))
+    }
+}
+impl ExactSizeIterator for Slow {}
+
 fn pwriter_scenario(seed: u64, k: u64) -> (J, J) {
     let mut rng = StdRng::seed_from_u64(seed.wrapping_mul(32452843).wrapping_add(k));
     let nthreads = rng.random_range(2..6usize);
@@ -249,12 +279,13 @@ fn pwriter_scenario(seed: u64, k: u64) -> (J, J) {
             let mut r = StdRng::seed_from_u64(seed ^ (k << 8) ^ (th as u64) ^ 0x77);
             s.spawn(move || {
                 for i in 0..nops {
-                    let len = r.random_range(0..5usize);
+                    let len = match r.random_range(0..8) { 0 => r.random_range(20..200usize), 1 | 2 => r.random_range(0..14usize), _ => r.random_range(0..5usize) };
                     let items: Vec<u64> = (0..len).map(|j| ((th as u64 + 1) << 16) | ((i as u64) << 4) | j as u64).collect();
-                    let start = if r.random_range(0..2) == 0 {
-                        pw.write_contents(items.clone().into_iter())
-                    } else {
-                        pw.write_slice(&items)
+                    let start = match r.random_range(0..3) {
+                        0 => pw.write_contents(items.clone().into_iter()),
+                        // an iterator that takes its time: other writers reserve (and grow) while this write is in flight
+                        1 => pw.write_contents(Slow { items: items.clone(), i: 0, seed: r.random_range(1..u64::MAX) }),
+                        _ => pw.write_slice(&items),
                     };
                     verif::log(W_WRITE_RET, start as u64, side(items.clone()));
                     // read back a cell of the completed write and a cell of the initial prefix
@@ -359,6 +390,24 @@ pub fn main(args: &[String]) -> Result<(), String> {
     for k in 0..n {
         // a third of the scenarios run unperturbed, the rest with the seeded perturbation
         verif::set_perturbation(seed * 1000 + k, if k % 3 == 0 { 0 } else { perturb });
+        // every third scenario: the first thread that reaches one chosen schedule point is held there for a
+        // few milliseconds while everybody else proceeds (a directed version of the perturbation)
+        let gates: &[usize] = match kind.as_str() {
+            "pool" => &[1, 2, 3, 4, 5, 6],
+            "rolock" => &[10, 11, 12, 13, 14, 15],
+            "cvec" => &[16, 17, 18, 12, 13],
+            "pwriter" => &[19, 20, 21, 20, 12],
+            _ => &[17, 18, 12],
+        };
+        let gate = if k % 3 == 2 { Some(gates[((seed + k / 3) as usize) % gates.len()]) } else { None };
+        let hold_ms = 1 + (seed * 31 + k * 7) % 25;
+        if let Some(g) = gate {
+            verif::arm_gate(g);
+            std::thread::spawn(move || {
+                std::thread::sleep(Duration::from_millis(hold_ms));
+                verif::release_gate(g);
+            });
+        }
         let kind2 = kind.clone();
         let (tx, rx) = std::sync::mpsc::channel();
         let runner = std::thread::spawn(move || {
@@ -392,6 +441,19 @@ pub fn main(args: &[String]) -> Result<(), String> {
                     out.emit(e);
                 }
             }
+            Err(std::sync::mpsc::RecvTimeoutError::Disconnected) => {
+                // the scenario thread panicked (an assertion of the code under test, or a panic propagated out of a scoped thread)
+                let b = match kind.as_str() { "pool" => "p_begin", "rolock" => "l_begin", "cvec" => "v_begin", "pwriter" => "w_begin", _ => "n_begin" };
+                out.emit(json!({"e": b, "k": k, "threads": 0}));
+                for ev in &log {
+                    out.emit(event_json(ev, &sd));
+                }
+                let msg = match runner.join() {
+                    Err(p) => p.downcast_ref::<String>().cloned().or_else(|| p.downcast_ref::<&str>().map(|s| s.to_string())).unwrap_or_default(),
+                    Ok(()) => String::new(),
+                };
+                out.emit(json!({"e": "crash", "k": k, "msg": msg}));
+            }
             Err(_) => {
                 // watchdog: the scenario did not finish (deadlock / lost wake-up): record what was seen
                 let b = match kind.as_str() { "pool" => "p_begin", "rolock" => "l_begin", "cvec" => "v_begin", "pwriter" => "w_begin", _ => "n_begin" };
@@ -402,6 +464,9 @@ pub fn main(args: &[String]) -> Result<(), String> {
                 out.emit(json!({"e": "timeout", "k": k}));
                 timed_out = true;
             }
+        }
+        if let Some(g) = gate {
+            verif::release_gate(g);
         }
         for (i, c) in verif::take_counts().iter().enumerate() {
             points[i] += c;
